@@ -14,6 +14,11 @@ CHECKS = {
     note="Partial as C02: block accuracy is C01's subject. Trusted: Lean kernel, translate/indexmaps.py, harness/corr_deriv.cpp.",
     technique="Lean 4 proof of the second-derivative assembly for all L + translator-fed model + bitwise differential correspondence",
     design="3/C03"),
+ "C10": dict(
+    text="Lean theorems (Props/C10.lean + Lemmas/Conc.lean): Bernstein's theorem over a thread/memory model with an UNBOUNDED number of threads, arbitrary program lengths and ARBITRARY schedules - if no thread writes a location another reads or writes, no interleaving contains a conflicting pair of accesses, and after any finishing schedule every thread has read exactly what it reads alone (its result is bit-for-bit the serial one); the serial run is one of the schedules. `decide` over the extracted effect table shows the API operations (engine construction, the three const compute routines) are pairwise compatible and the compute routines have no write back door; a lemma carries the table to Bernstein's condition. The table is regenerated on every run from the linker's inventory of writable static storage, clang's AST of every library TU and a scan of the generated code. Dynamically, a ThreadSanitizer build of the working tree is driven by 2-16 threads sharing one engine and constructing private ones; results are compared bit for bit with a serial run.",
+    note="Trusted: Lean kernel; translate/effects.py (pattern-based AST walk, cross-checked with nm); C++ const semantics and std::call_once/static-init semantics (one atomic step that happens-before later uses); ThreadSanitizer's happens-before analysis covers all schedules of the accesses that were executed. Performance/starvation and I/O interleaving on std::cerr are outside the model.",
+    technique="Lean 4 proof of schedule independence (Bernstein) + decide over a translator-extracted effect table + ThreadSanitizer correspondence",
+    design="3/C10"),
  "C16": dict(
     text="Kernel-checked (decide +kernel, no axioms) over the WHOLE shipped table - 6 sets, 121 element definitions, 2144 primitives, exact decimals: every XML file is exactly the MOLPRO-convention reading of its raw source (elements, ncore, maxl, per shell lval/nexp, per primitive n/x/c; local part first at l=maxl; spin-orbit blocks dropped) and is well formed for the build. The data, the pow_n functions and the constants are regenerated from /repo on every run. Every shipped element is loaded by the real addECP_from_file and compared with the Lean loader/evaluator model (fields exact, evaluator 1e-13 at 10 radii per l) and, independently, with a Python oracle built straight from the raw files.",
     note="Trusted: Lean kernel; translate/ecpdata.py (own MOLPRO tokenizer, xml.etree), powfns.py, constants.py; harness/corr_ecp.cpp; pugixml/stod deliver the attribute values correctly rounded; std::sort modelled as any l-ordered permutation.",
